@@ -19,7 +19,9 @@ pub enum UStep {
     Rejected(String), ApiAdd(String, String, String), ApiDeleteDefault(String, String, String), Select, Rebuild, OtherSessionBlank,
 }
 #[derive(Serialize, Deserialize, Clone, Debug)]
-pub struct UpdCase { pub hash_seed: u64, pub pool: usize, pub rayon_seed: u64, pub steps: Vec<UStep> }
+pub struct UpdCase { pub hash_seed: u64, pub pool: usize, pub rayon_seed: u64, pub steps: Vec<UStep>,
+    /// non-zero: requests abbreviate IRIs with the prefix label `x:`, which successive requests bind to different namespaces
+    #[serde(default)] pub prefix_seed: u64 }
 pub struct C03;
 
 pub fn render(st: &UStep) -> Option<String> {
@@ -50,7 +52,7 @@ pub fn dump(db: &SparqlDatabase) -> Result<Store, String> {
 }
 pub fn raw_state(db: &SparqlDatabase) -> (BTreeSet<Quad>, Vec<GraphId>) { (db.dataset_index.all_quads().into_iter().collect(), db.dataset_index.named_graphs()) }
 
-pub struct Vocab { pub nn: u64, pub np: u64, pub ng: u64, pub nl: u64, pub rel: bool }
+pub struct Vocab { pub nn: u64, pub np: u64, pub ng: u64, pub nl: u64, pub rel: bool, pub star: bool }
 impl Vocab {
     /// with `rel`, some nodes and predicates are relative IRIs (`<r1>`, `<q0>`): Kolibrie stores them as bare strings
     pub fn n(&self, r: &mut Rng) -> String { if self.rel && r.chance(1, 3) { format!("r{}", r.below(3)) } else { format!("http://e/n{}", r.below(self.nn)) } }
@@ -76,7 +78,14 @@ impl Vocab {
         let vars = ["a", "b", "c"]; let k = 1 + r.usize(2);
         (0..k).map(|_| {
             let mut tv = |r: &mut Rng| -> T { match r.below(5) { 0 => T::Iri(self.n(r)), 1 if insert => T::Bn(if r.chance(1, 3) { "y".into() } else { "x".into() }), _ => T::Var(vars[r.usize(3)].into()) } };
-            QP { s: tv(r), p: if r.chance(1, 5) { T::Var("pp".into()) } else { T::Iri(self.p(r)) }, o: if r.chance(1, 5) { self.obj(r) } else { tv(r) }, g: match r.below(5) { 0 => G::Named(self.g(r)), 1 => G::Var("g".into()), _ => G::Default } }
+            let mut q = QP { s: tv(r), p: if r.chance(1, 5) { T::Var("pp".into()) } else { T::Iri(self.p(r)) }, o: if r.chance(1, 5) { self.obj(r) } else { tv(r) }, g: match r.below(5) { 0 => G::Named(self.g(r)), 1 => G::Var("g".into()), _ => G::Default } };
+            // RDF-star: a quoted triple without variables (absolute IRIs, optionally a template blank node, which stays fresh per solution) as subject or object
+            if self.star && insert && r.chance(1, 2) {
+                let abs = |r: &mut Rng| T::Iri(format!("http://e/n{}", r.below(self.nn)));
+                let qt = T::Quoted(Box::new(if r.chance(2, 3) { T::Bn(if r.chance(1, 2) { "x".into() } else { "w".into() }) } else { abs(r) }), Box::new(T::Iri(format!("http://e/p{}", r.below(self.np)))), Box::new(abs(r)));
+                if r.chance(1, 2) { q.s = qt; } else { q.o = qt; }
+            }
+            q
         }).collect()
     }
 }
@@ -95,7 +104,7 @@ pub const REJECTED: [&str; 12] = [
     "DELETE { <http://e/n0> <http://e/p0> ?a } INSERT { <http://e/n0> <http://e/p1> ?a } WHERE { ?a <http://e/p0> ?b ",
 ];
 pub fn gen_steps(r: &mut Rng, cfg: &mut Rng, n: usize) -> Vec<UStep> {
-    let v = Vocab { nn: 3 + cfg.below(4), np: 2 + cfg.below(2), ng: 2 + cfg.below(2), nl: 3, rel: cfg.chance(1, 4) };
+    let v = Vocab { nn: 3 + cfg.below(4), np: 2 + cfg.below(2), ng: 2 + cfg.below(2), nl: 3, rel: cfg.chance(1, 4), star: cfg.chance(1, 5) };
     let w_rej = cfg.below(3) as u32; let w_api = cfg.below(3) as u32;
     let mut steps = vec![];
     for _ in 0..n {
@@ -115,6 +124,22 @@ pub fn gen_steps(r: &mut Rng, cfg: &mut Rng, n: usize) -> Vec<UStep> {
     steps
 }
 
+thread_local! { pub static PREFIX_SEED: std::cell::Cell<u64> = std::cell::Cell::new(0); }
+/// abbreviate either the node IRIs or the predicate IRIs of a request with the label `x:`; which namespace `x:` stands for
+/// changes from request to request, and every request declares its own binding
+fn with_rebound_prefix(text: String, seed: u64, i: usize) -> String {
+    if seed == 0 { return text; }
+    let (ns, decl) = match kolibrie_verif_rt::rng::mix(seed, i as u64) % 3 { 1 => ("<http://e/n", "PREFIX x: <http://e/n> "), 2 => ("<http://e/p", "PREFIX x: <http://e/p> "), _ => return text };
+    let mut out = String::from(decl); let mut rest = text.as_str();
+    while let Some(k) = rest.find(ns) {
+        let tail = &rest[k + ns.len()..];
+        let digits = tail.chars().take_while(|c| c.is_ascii_digit()).count();
+        if digits > 0 && tail[digits..].starts_with('>') { out.push_str(&rest[..k]); out.push_str("x:"); out.push_str(&tail[..digits]); rest = &tail[digits + 1..]; }
+        else { out.push_str(&rest[..k + ns.len()]); rest = tail; }
+    }
+    out.push_str(rest);
+    out
+}
 /// apply one step to the database and the model; Err = violation
 pub fn step(db: &mut SparqlDatabase, other: &mut SparqlDatabase, m: &mut Store, bnctr: &mut u64, i: usize, st: &UStep, ctx: &mut Ctx) -> Result<(), Violation> {
     match st {
@@ -126,6 +151,7 @@ pub fn step(db: &mut SparqlDatabase, other: &mut SparqlDatabase, m: &mut Store, 
         _ => {}
     }
     let text = render(st).unwrap();
+    let text = if matches!(st, UStep::Rejected(_)) { text } else { with_rebound_prefix(text, PREFIX_SEED.with(|c| c.get()), i) };
     let before = m.clone(); let raw_before = raw_state(db);
     let expect: Option<(BTreeSet<Q>, BTreeSet<Q>)> = match st {
         UStep::InsertData(q) => Some((BTreeSet::new(), qm::inst(q, &[qm::Binding::new()], true, bnctr))),
@@ -146,6 +172,18 @@ pub fn step(db: &mut SparqlDatabase, other: &mut SparqlDatabase, m: &mut Store, 
             let (ic, dc) = qm::apply(m, &del, &ins);
             let real = dump(db).map_err(|e| Violation::new("dataset-undecodable", e))?;
             if real.graphs != m.graphs { return Err(Violation::new("graph-catalog-differs", format!("step {}: after {:?} the graph catalog is {:?}, the standard effect gives {:?}", i, text, real.graphs, m.graphs))); }
+            // fresh blank nodes inside quoted triples: compare with every fresh label collapsed, plus the number of distinct fresh nodes
+            let embedded = |qs: &BTreeSet<Q>, pre: &str| qs.iter().any(|q| [&q.0, &q.2].iter().any(|t| t.starts_with("<< ") && t.contains(pre)));
+            if embedded(&m.quads, "_:B") || embedded(&real.quads, REAL_FRESH) {
+                let collapse = |t: &str, pre: &str, seen: &mut BTreeSet<String>| -> String { t.split(' ').map(|w| if w.starts_with(pre) { seen.insert(w.to_string()); "_:*".to_string() } else { w.to_string() }).collect::<Vec<_>>().join(" ") };
+                let norm = |qs: &BTreeSet<Q>, pre: &str| -> (BTreeSet<Q>, usize) { let mut seen = BTreeSet::new(); let out = qs.iter().map(|q| (collapse(&q.0, pre, &mut seen), q.1.clone(), collapse(&q.2, pre, &mut seen), q.3.clone())).collect(); (out, seen.len()) };
+                let ((a, na), (b, nb)) = (norm(&m.quads, "_:B"), norm(&real.quads, REAL_FRESH));
+                ctx.hit("probe.fresh_blank_node_inside_quoted_triple");
+                if a != b { return Err(Violation::new("dataset-differs", format!("step {}: after {:?} the dataset differs from the standard effect even with all fresh blank nodes identified; expected-but-missing {:?}; present-but-unexpected {:?}", i, text, a.difference(&b).take(3).collect::<Vec<_>>(), b.difference(&a).take(3).collect::<Vec<_>>()))); }
+                if na != nb { return Err(Violation::new("blank-node-structure-differs", format!("step {}: after {:?} the dataset holds {} distinct fresh blank nodes, the standard effect (one fresh node per label and solution) gives {}", i, text, nb, na))); }
+                if (sum.inserted_quads, sum.deleted_quads) != (ic, dc) { return Err(Violation::new("counts-differ", format!("step {}: {:?} reported inserted={} deleted={}, but {} quads were actually added and {} removed", i, text, sum.inserted_quads, sum.deleted_quads, ic, dc))); }
+                return Ok(());
+            }
             let iso = qm::iso_modulo_fresh_bnodes(&m.quads, &real.quads, &|s| s.starts_with("_:B"), &|s| s.starts_with(REAL_FRESH));
             match iso {
                 Some(true) => {}
@@ -175,15 +213,17 @@ pub fn step(db: &mut SparqlDatabase, other: &mut SparqlDatabase, m: &mut Store, 
 impl Prop for C03 {
     type Case = UpdCase;
     fn id(&self) -> &'static str { "C03" }
-    fn expected_counters(&self) -> Vec<&'static str> { vec!["fault.direct_api_mutation_makes_statistics_stale", "probe.statistics_cached_before_later_updates", "fault.rejected_operation", "probe.same_quad_deleted_and_inserted", "probe.fresh_blank_nodes_created"] }
+    fn expected_counters(&self) -> Vec<&'static str> { vec!["fault.direct_api_mutation_makes_statistics_stale", "probe.statistics_cached_before_later_updates", "fault.rejected_operation", "probe.same_quad_deleted_and_inserted", "probe.fresh_blank_nodes_created", "probe.prefix_label_rebound_between_requests", "probe.fresh_blank_node_inside_quoted_triple"] }
     fn budget(&self, tier: Tier) -> Budget { match tier { Tier::Quick => Budget { runs: 10_000, wall_s: 60, recheck: 30 }, Tier::Thorough => Budget { runs: 800_000, wall_s: 1000, recheck: 100 } } }
     fn hash_seed(&self, c: &UpdCase) -> u64 { c.hash_seed }
     fn gen(&self, seed: u64, _i: u64, _t: Tier) -> UpdCase {
         let mut r = Rng::sub(seed, "workload"); let mut cfg = Rng::sub(seed, "swarm");
         let n = 5 + r.usize(36);
-        UpdCase { hash_seed: Rng::sub(seed, "hash").next(), pool: *cfg.pick(&[1, 2, 4, 8, 16]), rayon_seed: Rng::sub(seed, "rayon").next(), steps: gen_steps(&mut r, &mut cfg, n) }
+        UpdCase { hash_seed: Rng::sub(seed, "hash").next(), pool: *cfg.pick(&[1, 2, 4, 8, 16]), rayon_seed: Rng::sub(seed, "rayon").next(), steps: gen_steps(&mut r, &mut cfg, n), prefix_seed: if cfg.chance(1, 4) { Rng::sub(seed, "prefix").next() | 1 } else { 0 } }
     }
     fn exec(&self, c: &UpdCase, ctx: &mut Ctx) -> Option<Violation> {
+        PREFIX_SEED.with(|p| p.set(c.prefix_seed));
+        if c.prefix_seed != 0 { ctx.hit("probe.prefix_label_rebound_between_requests"); }
         rayon::sim_configure(c.rayon_seed, c.pool);
         let mut db = SparqlDatabase::new(); let mut other = SparqlDatabase::new();
         let mut m = Store::default(); let mut bnctr = 0u64;
@@ -199,6 +239,7 @@ impl Prop for C03 {
     }
     fn shrink(&self, c: &UpdCase) -> Vec<UpdCase> {
         let mut out: Vec<UpdCase> = shrink_vec(&c.steps).into_iter().map(|s| UpdCase { steps: s, ..c.clone() }).collect();
+        if c.prefix_seed != 0 { out.push(UpdCase { prefix_seed: 0, ..c.clone() }); }
         for (i, st) in c.steps.iter().enumerate() {
             let mut push = |ns: UStep| { let mut s = c.steps.clone(); s[i] = ns; out.push(UpdCase { steps: s, ..c.clone() }); };
             match st {
@@ -222,7 +263,11 @@ impl Prop for C03 {
 // =====================================================================================================================
 // C17
 #[derive(Serialize, Deserialize, Clone, Debug)]
-pub struct Req { pub entry: u8, pub text: String, pub valid_select: bool, pub update_shaped: bool, #[serde(default)] pub ext: bool }
+pub struct Req { pub entry: u8, pub text: String, pub valid_select: bool, pub update_shaped: bool, #[serde(default)] pub ext: bool,
+    /// raw text appended to the percent-encoded form / URL parameter (escapes that decode to no valid UTF-8, stray %, +)
+    #[serde(default)] pub form_tail: String,
+    /// a request of the known-malformed corpus: every update entry point must report failure
+    #[serde(default)] pub malformed: bool }
 #[derive(Serialize, Deserialize, Clone, Debug)]
 pub struct HostileCase { pub hash_seed: u64, pub setup: Vec<UStep>, pub reqs: Vec<Req>, #[serde(default)] pub prefixes: Vec<(String, String, bool)>,
     /// simulated rayon pool (size 0 = 1) and a bulk of extra default-graph triples so that joins see more rows than one chunk
@@ -334,10 +379,10 @@ impl C17 {
                 2 => Some(execute_sparql_update(&rq.text, &mut db).is_ok()),
                 3 => Some(db.execute_update(&rq.text).is_ok()),
                 4 => Some(db.handle_update(&rq.text) != "Update Failed"),
-                5 => { let http = format!("GET /sparql?query={} HTTP/1.1\r\nHost: x\r\n\r\n", pct(&rq.text)); let out = db.handle_http_request(&http); Some(!out.contains("Query Failed")) }
+                5 => { let http = format!("GET /sparql?query={}{} HTTP/1.1\r\nHost: x\r\n\r\n", pct(&rq.text), rq.form_tail); let out = db.handle_http_request(&http); Some(!out.contains("Query Failed")) }
                 6 => { let http = format!("POST /sparql HTTP/1.1\r\nHost: x\r\nContent-Type: application/sparql-query\r\n\r\n{}", rq.text); let out = db.handle_http_request(&http); Some(!out.contains("Query Failed")) }
-                7 => { let http = format!("POST /sparql HTTP/1.1\r\nHost: x\r\nContent-Type: application/x-www-form-urlencoded\r\n\r\nquery={}", pct(&rq.text)); let out = db.handle_http_request(&http); Some(!out.contains("Query Failed")) }
-                8 => { let http = format!("POST /sparql HTTP/1.1\r\nHost: x\r\nContent-Type: application/x-www-form-urlencoded\r\n\r\nupdate={}", pct(&rq.text)); let out = db.handle_http_request(&http); Some(!out.contains("Update Failed")) }
+                7 => { let http = format!("POST /sparql HTTP/1.1\r\nHost: x\r\nContent-Type: application/x-www-form-urlencoded\r\n\r\nquery={}{}", pct(&rq.text), rq.form_tail); let out = db.handle_http_request(&http); Some(!out.contains("Query Failed")) }
+                8 => { let http = format!("POST /sparql HTTP/1.1\r\nHost: x\r\nContent-Type: application/x-www-form-urlencoded\r\n\r\nupdate={}{}", pct(&rq.text), rq.form_tail); let out = db.handle_http_request(&http); Some(!out.contains("Update Failed")) }
                 _ => { let http = format!("POST /sparql HTTP/1.1\r\nHost: x\r\nContent-Type: application/sparql-update\r\n\r\n{}", rq.text); let out = db.handle_http_request(&http); Some(!out.contains("Update Failed")) }
             });
             let short: String = rq.text.chars().take(120).collect();
@@ -354,6 +399,9 @@ impl C17 {
                     if rq.ext && rq.update_shaped && !query_path && ok == Some(true) { ctx.hit("probe.extension_clause_then_update_applied"); }
                     if rq.valid_select && ok == Some(true) && (rq.text.contains("MIN(") || rq.text.contains("MAX(")) && before.0.iter().any(|q| db.dictionary.read().unwrap().decode(q.object).map(|o| o.contains("NaN")).unwrap_or(false)) { ctx.hit("probe.min_max_over_stored_nan"); }
                     if !query_path && ok == Some(false) && after != before { return Some(Violation::new("failed-update-changed-dataset", format!("request {} through {} reported failure but the dataset changed; text = {:?}", i, name, short))); }
+                    if rq.malformed && ok == Some(true) && !(rq.text.starts_with("SELECT")) { return Some(Violation::new("malformed-request-accepted", format!("request {} through {}: a malformed update was reported as successful; text = {:?}", i, name, short))); }
+                    if rq.malformed { ctx.hit("fault.known_malformed_update_submitted"); }
+                    if !rq.form_tail.is_empty() { ctx.hit("fault.form_parameter_with_hostile_percent_escapes"); }
                     if ok == Some(false) { ctx.hit("fault.malformed_or_refused_request"); }
                     if !rq.text.is_ascii() { ctx.hit("fault.multibyte_request"); }
                 }
@@ -368,7 +416,7 @@ impl C17 {
 impl Prop for C17 {
     type Case = HostileCase;
     fn id(&self) -> &'static str { "C17" }
-    fn expected_counters(&self) -> Vec<&'static str> { vec!["fault.update_submitted_to_query_endpoint", "fault.update_behind_extension_clause_on_query_endpoint", "fault.malformed_or_refused_request", "fault.multibyte_request", "fault.hostile_namespace_in_database_prefix_table", "probe.prefix_registered_by_turtle_loader", "probe.extension_clause_then_select_accepted", "probe.ext_accepted.rule", "probe.ext_accepted.retrieve", "probe.ext_accepted.register", "probe.ext_accepted.ml_predict", "probe.ext_accepted.retrieve_and_rule", "probe.extension_clause_then_update_applied", "probe.min_max_over_stored_nan", "probe.bulk_dataset_over_64_rows", "fault.pool_wider_than_the_row_count"] }
+    fn expected_counters(&self) -> Vec<&'static str> { vec!["fault.update_submitted_to_query_endpoint", "fault.update_behind_extension_clause_on_query_endpoint", "fault.malformed_or_refused_request", "fault.multibyte_request", "fault.hostile_namespace_in_database_prefix_table", "probe.prefix_registered_by_turtle_loader", "probe.extension_clause_then_select_accepted", "probe.ext_accepted.rule", "probe.ext_accepted.retrieve", "probe.ext_accepted.register", "probe.ext_accepted.ml_predict", "probe.ext_accepted.retrieve_and_rule", "probe.extension_clause_then_update_applied", "probe.min_max_over_stored_nan", "probe.bulk_dataset_over_64_rows", "fault.pool_wider_than_the_row_count", "fault.known_malformed_update_submitted", "fault.form_parameter_with_hostile_percent_escapes"] }
     fn budget(&self, tier: Tier) -> Budget { match tier { Tier::Quick => Budget { runs: 20_000, wall_s: 60, recheck: 30 }, Tier::Thorough => Budget { runs: 1_500_000, wall_s: 1000, recheck: 100 } } }
     fn hash_seed(&self, c: &HostileCase) -> u64 { c.hash_seed }
     fn gen(&self, seed: u64, _i: u64, _t: Tier) -> HostileCase {
@@ -390,11 +438,14 @@ impl Prop for C17 {
             let base = if ext { format!("{}{}", r.pick(&EXTENSIONS), base) } else { base };
             let text = if mutated { mutate(&mut r, &base) } else { base };
             let entry = if !mutated && is_sel && !ext && r.chance(1, 4) { 1 } else { *r.pick(&[0u8, 0, 0, 2, 3, 4, 5, 6, 7, 8, 9]) };
-            reqs.push(Req { entry, text, valid_select: !mutated && is_sel, update_shaped: !mutated && !is_sel, ext });
+            let form_tail = if matches!(entry, 5 | 7 | 8) && r.chance(1, 6) { r.pick(&["%FF", "%C3", "%E9", "%", "%G1", "+%80+", "%F0%9F", "%00", "&x=%FF", "%C3%28"]).to_string() } else { String::new() };
+            if r.chance(1, 10) { let t = r.pick(&REJECTED).to_string(); reqs.push(Req { entry: *r.pick(&[2u8, 3, 4, 8, 9]), text: t, valid_select: false, update_shaped: false, ext: false, form_tail: String::new(), malformed: true }); }
+            reqs.push(Req { entry, text, valid_select: !mutated && is_sel, update_shaped: !mutated && !is_sel, ext, form_tail, malformed: false });
         }
         HostileCase { hash_seed: Rng::sub(seed, "hash").next(), setup, reqs, prefixes, pool: *cfg.pick(&[1usize, 1, 2, 4, 16, 65, 128, 300]), rayon_seed: Rng::sub(seed, "rayon").next(), bulk: if cfg.chance(1, 5) { 60 + cfg.below(90) as u32 } else { 0 } }
     }
     fn exec(&self, c: &HostileCase, ctx: &mut Ctx) -> Option<Violation> {
+        PREFIX_SEED.with(|p| p.set(0));
         rayon::sim_configure(c.rayon_seed, c.pool.max(1));
         let v = self.exec_inner(c, ctx);
         rayon::sim_reset();
